@@ -133,3 +133,48 @@ Proof.
   unfold outs in I. apply in_map_iff in I. destruct I as (id & <- & _). cbn in H.
   apply andb_true_iff in H. destruct H as [H _]. apply Nat.eqb_eq in H. exact H.
 Qed.
+
+Lemma in_outs_ep : forall e c ids o, In o (outs e c ids) -> fst (fst o) = e.
+Proof.
+  intros e c ids o I. unfold outs in I. apply in_map_iff in I. destruct I as (id & <- & _). reflexivity.
+Qed.
+
+Lemma failed_in_seal : forall xs L e, failed_in (add_seal xs L) e = failed_in L e.
+Proof. reflexivity. Qed.
+Lemma failed_in_wire : forall xs L e, failed_in (add_wire xs L) e = failed_in L e.
+Proof. reflexivity. Qed.
+Lemma failed_in_acc : forall xs L e, failed_in (add_acc xs L) e = failed_in L e.
+Proof. reflexivity. Qed.
+
+Lemma failed_in_out_eq : forall xs L e,
+    failed_in (add_out xs L) e =
+    failed_in L e || existsb (fun o => Nat.eqb (fst (fst o)) e && rclass_bad (snd o)) xs.
+Proof.
+  intros. unfold failed_in, add_out. cbn [l_out l_open]. rewrite existsb_app.
+  rewrite <- !orb_assoc. f_equal. apply orb_comm.
+Qed.
+
+Lemma failed_in_open_eq : forall xs L e,
+    failed_in (add_open xs L) e =
+    failed_in L e || existsb (fun o => Nat.eqb (fst (fst (fst o))) e && negb (snd o)) xs.
+Proof.
+  intros. unfold failed_in, add_open. cbn [l_out l_open]. rewrite existsb_app.
+  rewrite orb_assoc. reflexivity.
+Qed.
+
+Lemma failed_in_out : forall xs L e, failed_in (add_out xs L) e = true ->
+    failed_in L e = true \/ exists o, In o xs /\ fst (fst o) = e /\ rclass_bad (snd o) = true.
+Proof.
+  intros xs L e H. rewrite failed_in_out_eq in H. apply orb_true_iff in H. destruct H as [H|H]; [left; exact H|].
+  right. apply existsb_exists in H. destruct H as (o & I & B). exists o.
+  apply andb_true_iff in B. destruct B as [B1 B2]. apply Nat.eqb_eq in B1. auto.
+Qed.
+
+Lemma failed_in_open : forall xs L e, failed_in (add_open xs L) e = true ->
+    failed_in L e = true \/ exists o, In o xs /\ fst (fst (fst o)) = e /\ snd o = false.
+Proof.
+  intros xs L e H. rewrite failed_in_open_eq in H. apply orb_true_iff in H. destruct H as [H|H]; [left; exact H|].
+  right. apply existsb_exists in H. destruct H as (o & I & B). exists o.
+  apply andb_true_iff in B. destruct B as [B1 B2]. apply Nat.eqb_eq in B1.
+  apply negb_true_iff in B2. auto.
+Qed.
